@@ -28,6 +28,8 @@ RInit == r = [ now |-> 0, started |-> FALSE, rs |-> "DISCONNECTED", tries |-> 0,
                unwinding |-> FALSE,     \* the attempt in flight was cancelled; it will still report its failure
                pending |-> FALSE,       \* a connect task exists that has not begun its attempt yet (trigger / lock wait)
                live |-> FALSE,          \* an established session exists
+               grace |-> FALSE,         \* a graceful end of that session has been initiated (the application's disconnect(),
+                                        \* a disconnect request of the device): its end will be an expected one
                stopwait |-> FALSE,      \* stop() is waiting for the lock
                lastcb |-> "none",       \* last of on_connect / on_disconnect
                ev |-> <<>> ]            \* events produced by the current step, in order
@@ -91,6 +93,9 @@ Mdns(x0, match) ==
   IF ~(x.accept /\ x.started /\ match /\ x.listen) THEN {x}
   ELSE {[Trigger(StopListen(x)) EXCEPT !.accept = FALSE]}
 
+\* the application calls client.disconnect() on the live session, or the device asks to disconnect
+Graceful(x0) == LET x == Begin(x0) IN IF x.live THEN {[x EXCEPT !.grace = TRUE]} ELSE {x}
+
 \* --------------------------------------------------------------- internal
 \* the retry timer fires
 TimerFire(x0) ==
@@ -115,13 +120,14 @@ Fail(x0, auth) ==
 Succeed(x0) ==
   LET x == Begin(x0) IN
   IF x.att # "finishing" THEN {}
-  ELSE {Emit(SetState([x EXCEPT !.att = "none", !.tries = 0, !.live = TRUE, !.lastcb = "connect"], "READY"), <<"connect_cb">>)}
+  ELSE {Emit(SetState([x EXCEPT !.att = "none", !.tries = 0, !.live = TRUE, !.grace = FALSE, !.lastcb = "connect"], "READY"), <<"connect_cb">>)}
 
 \* the session ends: on_disconnect, then an immediate retry (unexpected) or a cool-down (expected)
 SessionEnd(x0, expected) ==
   LET x == Begin(x0) IN
-  IF ~x.live \/ ~LockFree(x) THEN {}
-  ELSE LET y == Emit(SetState([x EXCEPT !.live = FALSE, !.lastcb = "disconnect"], "DISCONNECTED"), <<"disconnect_cb", expected>>)
+  \* (expected exactly when a graceful end had been initiated before the session closed, whatever closed it)
+  IF ~x.live \/ ~LockFree(x) \/ expected # x.grace THEN {}
+  ELSE LET y == Emit(SetState([x EXCEPT !.live = FALSE, !.grace = FALSE, !.lastcb = "disconnect"], "DISCONNECTED"), <<"disconnect_cb", expected>>)
        IN IF ~y.started THEN {y} ELSE {ScheduleConnect(y, IF expected THEN Cooldown ELSE 0)}
 
 Noop(x0) == {Begin(x0)}
